@@ -159,6 +159,7 @@ pub fn gen_world(rng: &mut Rng, p: &GenParams) -> WorldSpec {
         gitignore: vec![],
         git: true,
         lock_host: None,
+        default_ports: 0,
     }
 }
 
